@@ -32,6 +32,19 @@ def run(chk):
     for r, f in (("R10.1", r10_1), ("R10.2", r10_2), ("R10.3", r10_3), ("R10.4", r10_4), ("R10.5", r10_5)):
         if chk.want(r):
             f(chk, repo, cr)
+    chk.rule("R10.6", "memo discipline of class Crystal (= C14 R14.2) and no caching decorator on file readers/writers", 3)
+    if chk.want("R10.6"):
+        from .c14 import crystal_memo_rule
+        from .. import memo as MEMO
+        crystal_memo_rule(chk, "R10.6")
+        n = 0
+        for rel in (CR, SX, VR, VW, "fmt/cif.py", "crystal/space_group.py", "crystal/unit_cell.py", "crystal/asymmetric_unit.py"):
+            mod = repo.module(rel)
+            for qual, fn, txt in MEMO.decorator_caches(mod):
+                n += 1
+                chk.ob("R10.6", rel, qual, f"a cached function ({txt}) does not read files or depend on mutable state",
+                       not MEMO.reads_external_state(mod, fn), node=fn, fingerprint=f"cache:{qual}")
+        chk.ob("R10.6", CR, "I/O modules", f"{n} caching decorators found on the crystal I/O path", True, nontrivial=False)
     chk.assume("numeric equality 'to the written precision' and parsing of arbitrary label strings are not decided")
     chk.assume("the SHELX writer does not carry occupancies (the format clause 'where the format carries them')")
     chk.assume("LATT/SYMM soundness is C02 (R02.3-R02.5); CIF text round trip is C15; symmetry-operation strings are C11 (R11.7)")
